@@ -58,6 +58,51 @@ def tier_sizes(tier, quick, thorough):
     return thorough if tier == 'thorough' else quick
 
 
+def big_files_via_cli(chk, exe, wd):
+    """programs larger than the file buffers saved and loaded through the real CLI, compared with the in-memory cycle (FMLObservations)"""
+    # large files through the real command line: `fml compile -o` / `fml execute` / `fml disassemble` read and write through buffered files
+    import subprocess
+    obs = []
+    bigs = pool.big_programs()
+    bouts = compile_pool(exe, bigs, wd, ['run', 'bytes2'], 'c03big', budget=100000)
+    for i, o in enumerate(bouts):
+        if 'bytes' not in o:
+            continue
+        name = bigs[i]['name']
+        run = o.get('run') or {}
+        obs.append({'key': name + ' :: outcome', 'val': {'ok': bool(run.get('ok')), 'out': hashlib.sha1(bytes(run.get('out', []))).hexdigest()}, 'cfg': 'in-process load from memory'})
+        obs.append({'key': name + ' :: bytes', 'val': {'d': hashlib.sha1(bytes(o['bytes'])).hexdigest()}, 'cfg': 'in-process serialize to memory'})
+        obs.append({'key': name + ' :: bytes', 'val': {'d': hashlib.sha1(bytes(o.get('bytes2', []))).hexdigest()}, 'cfg': 'in-process save of the loaded program'})
+        src = os.path.join(wd, 'big%d.fml' % i)
+        open(src, 'w', encoding='utf-8').write(bigs[i]['text'])
+        bc = os.path.join(wd, 'big%d.bc' % i)
+        open(bc, 'wb').write(bytes(o['bytes']))
+        p1 = subprocess.run([exe, 'execute', bc], stdout=subprocess.PIPE, stderr=subprocess.PIPE, timeout=120)
+        obs.append({'key': name + ' :: outcome', 'val': {'ok': p1.returncode == 0, 'out': hashlib.sha1(p1.stdout).hexdigest()}, 'cfg': '`fml execute FILE` (buffered file reader)'})
+        p2 = subprocess.run([exe, 'execute'], stdin=open(bc, 'rb'), stdout=subprocess.PIPE, stderr=subprocess.PIPE, timeout=120)
+        obs.append({'key': name + ' :: outcome', 'val': {'ok': p2.returncode == 0, 'out': hashlib.sha1(p2.stdout).hexdigest()}, 'cfg': '`fml execute` < stdin'})
+        js = os.path.join(wd, 'big%d.json' % i)
+        bc2 = os.path.join(wd, 'big%d.cli.bc' % i)
+        if subprocess.run([exe, 'parse', src, '--format', 'json', '-o', js], stdout=subprocess.PIPE, stderr=subprocess.PIPE).returncode == 0 and \
+                subprocess.run([exe, 'compile', js, '-o', bc2], stdout=subprocess.PIPE, stderr=subprocess.PIPE).returncode == 0:
+            obs.append({'key': name + ' :: bytes', 'val': {'d': hashlib.sha1(open(bc2, 'rb').read()).hexdigest()}, 'cfg': '`fml compile -o FILE` (buffered file writer)'})
+        chk.count(hashlib.sha1(bytes(o['bytes'])).hexdigest())
+    if obs:
+        opath = os.path.join(wd, 'bigobs.ndjson')
+        write_ndjson(opath, obs)
+        ro = tlc_or_die('FMLObservations', env={'OBS': opath}, workers=1, timeout=600)
+        chk.add_tlc(ro)
+        if not ro.lines.get('DONE'):
+            raise ToolError('FMLObservations did not reach the end of the history')
+        for inc in ro.lines.get('INCONSISTENT', []):
+            a, b = obs[inc['first'] - 1], obs[inc['second'] - 1]
+            chk.violation('%s differs between [%s] and [%s]' % (inc['key'], a['cfg'], b['cfg']),
+                          {'program': inc['key'].split(' :: ')[0], 'source': [x for x in bigs if x['name'] == inc['key'].split(' :: ')[0]][0]['text'][:800], 'first': a, 'second': b,
+                           'signature': {'kind': 'cli-load-save', 'what': inc['key'].split(' :: ')[1]}})
+        chk.traces += len(obs)
+    return len(bigs)
+
+
 # ------------------------------------------------------------------------------------------------ C04
 def spec_generated_programs(chk, wd, tier):
     """spec -> impl: TLC enumerates abstract programs over every tag/opcode/width boundary (MC_Format),
@@ -75,7 +120,7 @@ def c04(tier):
     chk.rule = ('impl->spec: every program of the pool (in-repo corpus + seeded random programs + construct-in-context family) is compiled and '
                 'serialized by the real toolchain; TLC decodes the bytes with the independent TLA+ reader and compares them with Encode(projection of '
                 'the in-memory program). spec->impl: TLC-enumerated programs over every tag/opcode/width boundary are encoded by the TLA+ writer and '
-                'loaded by the real reader. distinct_nontrivial = distinct byte strings judged.')
+                'loaded by the real reader; files larger than the 8 KiB buffers are additionally written and read through the real CLI. distinct_nontrivial = distinct byte strings judged.')
     exe = build('debug')
     wd = scratch('c04')
     progs = pool.corpus() + pool.random_programs(tier_sizes(tier, 120, 3000)) + pool.construct_family(limit=tier_sizes(tier, 150, None))
@@ -100,6 +145,7 @@ def c04(tier):
     chk.traces += judge_bytecode(chk, xr, wd, 'c04b', names, {'decodable', 'no_trailing', 'loads', 'loaded_same'})
     if gen:
         chk.sample({'program': 'spec-generated:0', 'bytes': gen[0]['bytes'][:40]})
+    chk.notes['large_files_through_cli'] = big_files_via_cli(chk, exe, wd)
     chk.notes['spec_generated_programs'] = len(gen)
     chk.notes['compiled_programs'] = len(recs)
     chk.assumptions = ['TLC, the Json/IOUtils community modules', 'the harness projection absprog.rs of an in-memory Program']
@@ -112,7 +158,8 @@ def c03(tier):
     chk = Check('C03', tier)
     chk.rule = ('every program of the pool is compiled, saved, loaded, saved again and executed with and without the byte round trip; TLC judges '
                 'loaded = Decode(bytes) = written program, bytes2 = bytes, same output/status; plus spec-generated structural programs '
-                '(non-ASCII/empty strings, extreme ints, empty classes, many methods) loaded and re-saved. distinct_nontrivial = distinct byte strings.')
+                '(non-ASCII/empty strings, extreme ints, empty classes, many methods) loaded and re-saved; programs larger than the 8 KiB file buffers saved and loaded through the real '
+                '`fml compile -o` / `fml execute` (file and stdin) and compared with the in-memory cycle by FMLObservations. distinct_nontrivial = distinct byte strings.')
     exe = build('debug')
     wd = scratch('c03')
     progs = pool.corpus() + pool.random_programs(tier_sizes(tier, 120, 3000), base_seed=seed() * 7919 + 17) + pool.construct_family(limit=tier_sizes(tier, 100, None))
@@ -134,6 +181,8 @@ def c03(tier):
     for r in xr:
         chk.count(hashlib.sha1(bytes(r['bytes'])).hexdigest())
     chk.traces += judge_bytecode(chk, xr, wd, 'c03b', names, {'loads', 'loaded_same', 'loaded_layout', 'resave_same'})
+    nbig = big_files_via_cli(chk, exe, wd)
+    chk.notes['large_files_through_cli'] = nbig
     chk.notes['spec_generated_programs'] = len(gen)
     chk.notes['compiled_programs'] = len(recs)
     chk.assumptions = ['TLC, the Json/IOUtils community modules', 'the harness projection absprog.rs of an in-memory Program']
